@@ -241,6 +241,75 @@ theorem lsn_sym_step_is_product_formula (n : Nat) (Tre Tim V : Nat → Nat → R
       apply List.sum_eq_zero; intro x hx; obtain ⟨e, _, rfl⟩ := List.mem_map.mp hx; simp [coeffOfKind]
     rw [z1 false, z2, zero_add, add_zero]
     apply congrArg; apply List.map_congr_left; intro i _; simp [coeffOfKind]
+/-- The imaginary (oriented) hopping part of the SYMMETRIC linear-swap-network step: in both networks
+(`offset=False` and `offset=True`) the smaller mode sits on the left qubit at every callback, and the `Ryxxy`
+coefficients add up to `Σ_{p<q} Im T_pq / 2` per network — every hopping term twice at half time. -/
+theorem lsn_sym_imaginary_part (n : Nat) (Tre Tim V : Nat → Nat → Rat) :
+    ((lsnSymStep n Tre Tim V).map (coeffOfKind 1)).sum
+      = ((allPairs n).map fun k => Tim k.1 k.2 / 2).sum + ((allPairs n).map fun k => Tim k.1 k.2 / 2).sum ∧
+    (∀ e ∈ lsnSymStep n Tre Tim V, e.1 = 1 → e.2.1 < e.2.2.1) := by
+  constructor
+  · have hg : ∀ p q : Nat, (fun p q : Nat => if p < q then Tim p q / 2 else Tim q p / 2) p q
+        = (fun p q : Nat => if p < q then Tim p q / 2 else Tim q p / 2) q p := by
+      intro p q
+      simp only
+      by_cases h1 : p < q
+      · have : ¬ q < p := by omega
+        simp [h1, this]
+      · by_cases h2 : q < p
+        · simp [h1, h2]
+        · have : p = q := by omega
+          subst this; simp
+    have hR : ((allPairs n).map fun k => (fun p q : Nat => if p < q then Tim p q / 2 else Tim q p / 2) k.1 k.2)
+        = (allPairs n).map fun k => Tim k.1 k.2 / 2 := by
+      apply List.map_congr_left
+      intro k hk
+      rw [mem_allPairs] at hk
+      simp [hk.1]
+    have s0 := sum_over_log n false _ hg
+    have s1 := sum_over_log n true _ hg
+    rw [hR] at s0 s1
+    unfold lsnSymStep
+    simp only [List.map_append, List.sum_append, sum_flatMap, List.map_map]
+    have z : (((List.range n).map ((coeffOfKind 1) ∘ fun i => ((3 : Nat), i, i, n - 1 - i, Tre i i))).sum) = 0 := by
+      apply List.sum_eq_zero; intro x hx; obtain ⟨i, _, rfl⟩ := List.mem_map.mp hx; simp [coeffOfKind]
+    rw [z, add_zero]
+    refine congrArg₂ (· + ·) ?_ ?_
+    · rw [← s0]; apply congrArg; apply List.map_congr_left; intro e he
+      have := swapNetwork_call_ascending n false e he
+      simp [coeffOfKind, this]
+    · rw [← s1]; apply congrArg; apply List.map_congr_left; intro e he
+      have := swapNetwork_call_ascending n true e he
+      simp [coeffOfKind, this]
+  · intro e he h1
+    unfold lsnSymStep at he
+    simp only [List.mem_append, List.mem_flatMap, List.mem_map, List.mem_range] at he
+    rcases he with (⟨c, hc, hce⟩ | ⟨i, _, rfl⟩) | ⟨c, hc, hce⟩
+    · have := swapNetwork_call_ascending n false c hc
+      simp only [List.mem_cons, List.not_mem_nil, or_false] at hce
+      rcases hce with rfl | rfl | rfl <;> simp_all
+    · simp at h1
+    · have := swapNetwork_call_ascending n true c hc
+      simp only [List.mem_cons, List.not_mem_nil, or_false] at hce
+      rcases hce with rfl | rfl | rfl <;> simp_all
+
+/-- final order for a step whose permutation is the reversal only when `rev` (LOW_RANK: `rev` = odd number of
+retained components): `finish` swaps back iff `n_steps` odd ∧ `rev` ∧ not omitted -/
+theorem final_order_low_rank (r : Nat → Rat) (order nSteps : Nat) (q : List Nat) (time : Rat)
+    (omitSwaps rev : Bool) :
+    let perm : List Nat → List Nat := if rev then reversal else id
+    let qf := (simulate perm r order nSteps q time).2
+    (if finishSwaps nSteps omitSwaps && rev then reversal qf else qf) =
+      if omitSwaps && rev && nSteps % 2 == 1 then q.reverse else q := by
+  cases rev
+  · have h : ∀ q : List Nat, id (id q) = q := fun _ => rfl
+    obtain ⟨_, _, c⟩ := simulateLoop_spec id h r order (time / nSteps) nSteps q
+    simp only [simulate, Bool.false_eq_true, if_false, c, iterate_involutive id h, finishSwaps]
+    rcases Nat.mod_two_eq_zero_or_one nSteps with h2 | h2 <;> cases omitSwaps <;> simp [h2]
+  · have h : ∀ q, reversal (reversal q) = q := by intro q; simp [reversal]
+    obtain ⟨_, _, c⟩ := simulateLoop_spec reversal h r order (time / nSteps) nSteps q
+    simp only [simulate, if_true, c, iterate_involutive reversal h, finishSwaps]
+    rcases Nat.mod_two_eq_zero_or_one nSteps with h2 | h2 <;> cases omitSwaps <;> simp [h2, reversal]
 /-- The symmetric linear-swap-network step is a PALINDROME: its third part (the network with
 `offset=True` on the reversed qubits, gates in the order rot11, Ryxxy, Rxxyy) is exactly the first part
 read backwards — the same generator with the same coefficient for the same pair of modes on the same two
@@ -424,6 +493,109 @@ theorem lr_basis_changes_telescope {G : Type} [Group G] (W : G) (Bs : List G) :
     (W⁻¹ :: lrBasisSeq W Bs).prod = 1 := by
   rw [List.prod_cons, lrBasisSeq_prod, inv_mul_cancel]
 
+/-- Commuting case of the linear swap network steps: for a diagonal hopping matrix (`T_pq = 0` for `p ≠ q`) every
+generator emitted with a non-zero coefficient is a density–density term `n_p n_q` (kind 2) or a number operator
+(kind 3) — all diagonal in the occupation basis, hence pairwise commuting: the hypothesis of
+`exact_when_commuting` holds for these Hamiltonians, for every number of modes. -/
+theorem lsn_commuting_case (n : Nat) (Tre Tim V : Nat → Nat → Rat)
+    (hT : ∀ p q, p ≠ q → Tre p q = 0) (hI : ∀ p q, p ≠ q → Tim p q = 0) :
+    (∀ e ∈ lsnAsymStep n Tre Tim V, e.2.2.2.2 ≠ 0 → e.1 = 2 ∨ e.1 = 3) ∧
+    (∀ e ∈ lsnSymStep n Tre Tim V, e.2.2.2.2 ≠ 0 → e.1 = 2 ∨ e.1 = 3) := by
+  constructor
+  · intro e he hne
+    unfold lsnAsymStep at he
+    simp only [List.mem_append, List.mem_flatMap, List.mem_map, List.mem_range] at he
+    rcases he with ⟨c, hc, hce⟩ | ⟨i, _, rfl⟩
+    · have hlt := swapNetwork_call_ascending n false c hc
+      have hpq : c.1 ≠ c.2.1 := by omega
+      simp only [List.mem_cons, List.not_mem_nil, or_false] at hce
+      rcases hce with rfl | rfl | rfl
+      · exact absurd (hT _ _ hpq) hne
+      · exact absurd (hI _ _ hpq) hne
+      · left; rfl
+    · right; rfl
+  · intro e he hne
+    unfold lsnSymStep at he
+    simp only [List.mem_append, List.mem_flatMap, List.mem_map, List.mem_range] at he
+    rcases he with (⟨c, hc, hce⟩ | ⟨i, _, rfl⟩) | ⟨c, hc, hce⟩
+    · have hlt := swapNetwork_call_ascending n false c hc
+      have hpq : c.1 ≠ c.2.1 := by omega
+      simp only [List.mem_cons, List.not_mem_nil, or_false] at hce
+      rcases hce with rfl | rfl | rfl
+      · exact absurd (by simp [hT _ _ hpq]) hne
+      · exact absurd (by simp [hI _ _ hpq]) hne
+      · left; rfl
+    · right; rfl
+    · have hlt := swapNetwork_call_ascending n true c hc
+      have hpq : c.1 ≠ c.2.1 := by omega
+      simp only [List.mem_cons, List.not_mem_nil, or_false] at hce
+      rcases hce with rfl | rfl | rfl
+      · left; rfl
+      · exact absurd (by simp [hI _ _ hpq]) hne
+      · exact absurd (by simp [hT _ _ hpq]) hne
+/-- Closed form of EVERY leaf time: the `i`-th `trotter_step` call of a step of any order gets the time `leafTime`,
+read off the base-5 digits of `i` (digit 2 = the middle sub-step with factor `1 − 4 r_j`, any other digit a side
+sub-step with factor `r_j`; most significant digit = outermost recursion level). -/
+theorem leaf_time_closed_form (perm : List Nat → List Nat) (r : Nat → Rat) :
+    ∀ k q t i, i < leafCount k → ((performStep perm r k q t).map (·.time))[i]? = some (leafTime r k t i)
+  | 0, q, t, i, hi => by
+    have : i = 0 := by simp [leafCount] at hi; omega
+    subst this; simp [performStep, leafTime]
+  | 1, q, t, i, hi => by
+    have : i = 0 := by simp [leafCount] at hi; omega
+    subst this; simp [performStep, leafTime]
+  | k + 2, q, t, i, hi => by
+    have ih := leaf_time_closed_form perm r (k + 1)
+    have hL := leafCount_pos (k + 1)
+    have len : ∀ q' t', ((performStep perm r (k + 1) q' t').map (·.time)).length = leafCount (k + 1) := by
+      intro q' t'; rw [List.length_map, performStep_length]
+    simp only [leafCount] at hi
+    simp only [performStep, List.map_append, leafTime]
+    generalize hLd : leafCount (k + 1) = L at *
+    by_cases c0 : i < L
+    · obtain ⟨d, m⟩ := block_index L 0 i (by omega) (by omega)
+      rw [d, m, if_neg (by omega)]
+      rw [List.getElem?_append_left (by simp [len]; omega), List.getElem?_append_left (by simp [len]; omega),
+        List.getElem?_append_left (by simp [len]; omega), List.getElem?_append_left (by rw [len]; omega)]
+      simpa using ih q _ i (by omega)
+    · by_cases c1 : i < 2 * L
+      · obtain ⟨d, m⟩ := block_index L 1 i (by omega) (by omega)
+        rw [d, m, if_neg (by omega)]
+        rw [List.getElem?_append_left (by simp [len]; omega), List.getElem?_append_left (by simp [len]; omega),
+          List.getElem?_append_left (by simp [len]; omega), List.getElem?_append_right (by rw [len]; omega), len]
+        simpa using ih _ _ (i - L) (by omega)
+      · by_cases c2 : i < 3 * L
+        · obtain ⟨d, m⟩ := block_index L 2 i (by omega) (by omega)
+          rw [d, m, if_pos rfl]
+          rw [List.getElem?_append_left (by simp [len]; omega), List.getElem?_append_left (by simp [len]; omega),
+            List.getElem?_append_right (by simp [len]; omega)]
+          simp only [List.length_append, len]
+          rw [show i - (L + L) = i - 2 * L by omega]
+          exact ih (perm (perm q)) (t - 4 * (t * r (k + 2))) (i - 2 * L) (by omega)
+        · by_cases c3 : i < 4 * L
+          · obtain ⟨d, m⟩ := block_index L 3 i (by omega) (by omega)
+            rw [d, m, if_neg (by omega)]
+            rw [List.getElem?_append_left (by simp [len]; omega), List.getElem?_append_right (by simp [len]; omega)]
+            simp only [List.length_append, len]
+            rw [show i - (L + L + L) = i - 3 * L by omega]
+            exact ih (perm (perm (perm q))) (t * r (k + 2)) (i - 3 * L) (by omega)
+          · obtain ⟨d, m⟩ := block_index L 4 i (by omega) (by omega)
+            rw [d, m, if_neg (by omega)]
+            rw [List.getElem?_append_right (by simp [len]; omega)]
+            simp only [List.length_append, len]
+            rw [show i - (L + L + L + L) = i - 4 * L by omega]
+            exact ih (perm (perm (perm (perm q)))) (t * r (k + 2)) (i - 4 * L) (by omega)
+/-- Closed form of the qubit list of EVERY leaf call of the whole simulation: for an involutive
+`step_qubit_permutation` the `i`-th `trotter_step` call receives `qubits` for even `i` and the permuted list for odd
+`i` — together with `leaf_time_closed_form` the complete trace of `simulate_trotter` in closed form. -/
+theorem leaf_qubits_closed_form (perm : List Nat → List Nat) (h : ∀ q, perm (perm q) = q)
+    (r : Nat → Rat) (order nSteps : Nat) (q : List Nat) (time : Rat) (i : Nat)
+    (hi : i < nSteps * leafCount order) :
+    ((simulate perm r order nSteps q time).1.map (·.qubits))[i]? = some (if i % 2 = 0 then q else perm q) := by
+  obtain ⟨a, b, _⟩ := simulateLoop_spec perm h r order (time / nSteps) nSteps q
+  have := alternates_getElem perm _ q i a (by rw [qubitsOf_length, b]; exact hi)
+  rw [iterate_involutive perm h] at this
+  exact this
 /-- Exactness for commuting pieces (Mathlib matrix exponential): if the generators `G` of one Trotter
 step commute pairwise, the product over all leaf steps of the whole simulation — every order, every
 step count, every value of the Suzuki ratios, any involutive or other qubit bookkeeping — of the step
